@@ -3,7 +3,7 @@ from typing import Optional, Set
 
 # Local imports
 from . import attrmagic
-from .connect import connectable
+from .connect import connectable, OrderedSet
 from .sliceable import sliceable
 from .concatable import concatable, is_concatable
 
@@ -32,7 +32,7 @@ class Concat:
         self.parts = tuple(parts)
 
         # Inner management data
-        self._connected_ports: Set["PortRef"] = set()
+        self._connected_ports: Set["PortRef"] = OrderedSet()
         self._width: Optional[int] = None
         self._slices: Set["Slice"] = set()
         self._concats: Set["Concat"] = set()
